@@ -797,10 +797,16 @@ func (m *ModAnalysis) analyse(f *ssa.Function) {
 					}
 				}
 			case *ssa.Call:
+				if isSyncCall(in.Common()) {
+					continue
+				}
 				doCall(in.Common(), in)
 			case *ssa.Go:
 				doCall(in.Common(), in)
 			case *ssa.Defer:
+				if isSyncCall(in.Common()) {
+					continue
+				}
 				doCall(in.Common(), in)
 			case *ssa.Send:
 				// channel sends do not modify tracked state
